@@ -19,7 +19,7 @@ Local Open Scope nat_scope.
 (* ---- 1. buffer side ---- *)
 Definition cpp_cfg (subspan_clamped : bool) : cfg :=
   {| ov := fun _ n => n; up_front := true; little := false; al := fun _ => false; len_chk_storage := false; guarded := false;
-     ptr_clamp := subspan_clamped; bulk_on := false; nested_strict := true; plan := all_first |}.
+     ptr_clamp := subspan_clamped; bulk_on := false; nested_strict := true; plan := all_first; asserts := false; assert_max := true |}.
 
 (* the C++ SERIALIZER (lang/cpp/templates/serialization.j2): every store goes through a checked bitspan member (setBit / setUxx /
    setIxx / setF* / setZeros / padAndMoveToAlignment: TOO_SMALL before anything is touched - scanned: tpl_cpp_ser_stores_checked and the
@@ -28,7 +28,7 @@ Definition cpp_cfg (subspan_clamped : bool) : cfg :=
    up-front test `capacity_bits < max` may be compiled out (upf).  `pl` says where the two template-level checks sit. *)
 Definition cpp_ser_cfg (upf : bool) (pl : chkplan) : cfg :=
   {| ov := fun _ n => n; up_front := upf; little := false; al := fun _ => false; len_chk_storage := true; guarded := true;
-     ptr_clamp := true; bulk_on := false; nested_strict := true; plan := pl |}.
+     ptr_clamp := true; bulk_on := false; nested_strict := true; plan := pl; asserts := false; assert_max := true |}.
 
 (* the byte index (relative to data_.data()) of the pointer any_bitspan::subspan() hands to the nested span, as the arithmetic term
    SCANNED from the support header (newSize inlined); size_t subtraction never goes below zero in the recognised shapes *)
@@ -43,6 +43,16 @@ Fixpoint seval (e : sexp) (size offb : nat) : nat :=
   | SMin a b => Nat.min (seval a size offb) (seval b size offb)
   | SIfLt a b t e' => if seval a size offb <? seval b size offb then seval t size offb else seval e' size offb
   end.
+
+(* the delimiter-header test of the C++ _deserialize_composite as SCANNED, evaluated in W-bit unsigned arithmetic (size_t of the target):
+   h = the header (32 bits on the wire, held in a size_t), size = in_buffer.size() in bits *)
+Inductive hchk : Type := HMulCmp | HDivCmp.
+Definition hchk_eval (W : N) (k : hchk) (h size : N) : bool :=
+  match k with
+  | HMulCmp => (size <? (8 * h) mod 2 ^ W)%N          (* (h * 8U) > in_buffer.size(): the product wraps *)
+  | HDivCmp => (size / 8 <? h)%N                      (* h > (in_buffer.size() / 8U) *)
+  end.
+Definition hchk_min_width (k : hchk) : N := match k with HMulCmp => 35%N | HDivCmp => 32%N end.
 
 (* bitspan::setZeros(length) at bit offset off (void fields, the C++ serializer's zero runs): the byte accesses SCANNED from the support
    header, as index terms whose meaning the scanner pins (offset_bytes = off/8, length_bytes_ceil = (off%8 + length + 7)/8,
